@@ -22,17 +22,17 @@ Definition is_ok {A} (r : res A) : Prop := match r with ROk _ _ => True | _ => F
 
 (* ===================================================================== stack *)
 Lemma pop_raw_top s v r :
-  stack_top (stack s) (sp s) (v :: r) -> pop_raw s = ROk v (with_sp s (sp s - 1)).
+  stack_top (stack s) (scap s) (sp s) (v :: r) -> pop_raw s = ROk v (with_sp s (sp s - 1)).
 Proof.
-  cbn [stack_top]; intros (Hne & Hget & _). unfold pop_raw.
-  rewrite (proj2 (N.eqb_neq _ _) Hne), Hget. reflexivity.
+  cbn [stack_top]; intros (Hne & Hlt & Hget & _). unfold pop_raw, sget.
+  rewrite (proj2 (N.eqb_neq _ _) Hne), (proj2 (N.ltb_lt _ _) Hlt), Hget. reflexivity.
 Qed.
 
-Lemma stack_top_tail stk p v r : stack_top stk p (v :: r) -> stack_top stk (p - 1) r.
+Lemma stack_top_tail stk cap p v r : stack_top stk cap p (v :: r) -> stack_top stk cap (p - 1) r.
 Proof. cbn [stack_top]; tauto. Qed.
 
 Lemma pop_argc_top s n r min max :
-  stack_top (stack s) (sp s) (VArgc n :: r) ->
+  stack_top (stack s) (scap s) (sp s) (VArgc n :: r) ->
   pop_argc min max s =
     if (n <? min) || (match max with Some m => m <? n | None => false end)
     then RErr E_OTHER [] (with_sp s (sp s - 1)) else ROk n (with_sp s (sp s - 1)).
@@ -339,13 +339,13 @@ Lemma hput_val s v :
   values_are_refs s -> val_ok s v ->
   exists p s', hput v s = ROk (VPtr p) s' /\ pres s s' /\ values_are_refs s' /\
     target_ok s' p /\ absv s' (VPtr p) = absv s v /\
-    stack s' = stack s /\ sp s' = sp s /\ st s' = st s.
+    stack s' = stack s /\ sp s' = sp s /\ scap s' = scap s /\ st s' = st s.
 Proof.
   intros W Hv.
   destruct v; cbn [val_ok] in Hv; try contradiction;
   try (match goal with |- context [hput (VPtr ?q)] =>
          exists q, s;
-         exact (conj (hput_ptr s q) (conj (pres_refl s) (conj W (conj Hv (conj eq_refl (conj eq_refl (conj eq_refl eq_refl)))))))
+         exact (conj (hput_ptr s q) (conj (pres_refl s) (conj W (conj Hv (conj eq_refl (conj eq_refl (conj eq_refl (conj eq_refl eq_refl))))))))
        end).
   all: match goal with |- context [hput ?v] =>
     assert (Hn : new_cell_ok s v) by exact I;
@@ -353,7 +353,7 @@ Proof.
     destruct (fresh_wf s v p h' W Hn F) as (W' & T');
     pose proof (fresh_pres _ _ _ _ F) as P;
     exists p, (with_heap s h');
-    refine (conj E (conj P (conj W' (conj T' (conj _ (conj eq_refl (conj eq_refl eq_refl)))))));
+    refine (conj E (conj P (conj W' (conj T' (conj _ (conj eq_refl (conj eq_refl (conj eq_refl eq_refl))))))));
     destruct F as (_ & _ & _ & _ & Hg & _); unfold absv; cbn [with_heap hp]; rewrite Hg; reflexivity
   end.
 Qed.
@@ -439,7 +439,7 @@ Ltac pop_raw_tac H :=
   rewrite (bind_ok _ _ _ _ _ (pop_raw_top _ _ _ H)).
 
 Lemma pop_value_top s v r :
-  stack_top (stack s) (sp s) (v :: r) ->
+  stack_top (stack s) (scap s) (sp s) (v :: r) ->
   pop_value s = lift (heap_deref (hp s) v) (with_sp s (sp s - 1)).
 Proof.
   intros H. unfold pop_value, pop_deref. rewrite (bind_ok _ _ _ _ _ (pop_raw_top _ _ _ H)). reflexivity.
@@ -480,7 +480,7 @@ Proof.
        (fun v0 => match v0 with VPair a _ => ret (VPtr a) | arg => fail_cell fuel arg end)
        (with_sp s (sp s - 1 - 1))).
   { unfold car. pop_argc_tac H s 1 1 (Some 1).
-    pose proof (stack_top_tail _ _ _ _ H) as H1.
+    pose proof (stack_top_tail _ _ _ _ _ H) as H1.
     unfold bindM at 1. rewrite (pop_value_top (with_sp s (sp s - 1)) v [] H1). reflexivity. }
   destruct (absv s v) as [w|l|] eqn:Ea.
   2: destruct l as [p| | |].
@@ -510,7 +510,7 @@ Proof.
        (fun v0 => match v0 with VPair _ d => ret (VPtr d) | arg => fail_cell fuel arg end)
        (with_sp s (sp s - 1 - 1))).
   { unfold cdr. pop_argc_tac H s 1 1 (Some 1).
-    pose proof (stack_top_tail _ _ _ _ H) as H1.
+    pose proof (stack_top_tail _ _ _ _ _ H) as H1.
     unfold bindM at 1. rewrite (pop_value_top (with_sp s (sp s - 1)) v [] H1). reflexivity. }
   destruct (absv s v) as [w|l|] eqn:Ea.
   2: destruct l as [p| | |].
@@ -543,18 +543,18 @@ Proof.
   intros W Ha Hb H. unfold called_with in H. cbn [len length rev app N.of_nat Pos.of_succ_nat] in H.
   set (s1 := with_sp s (sp s - 1)).
   set (s2 := with_sp s1 (sp s1 - 1)).
-  pose proof (stack_top_tail _ _ _ _ H) as H1.
-  pose proof (stack_top_tail _ _ _ _ H1) as H2.
+  pose proof (stack_top_tail _ _ _ _ _ H) as H1.
+  pose proof (stack_top_tail _ _ _ _ _ H1) as H2.
   (* heap.put of the cdr *)
-  destruct (hput_val s2 b W Hb) as (d & s3 & E3 & P3 & W3 & T3 & A3 & Hst3 & Hsp3 & Hx3).
+  destruct (hput_val s2 b W Hb) as (d & s3 & E3 & P3 & W3 & T3 & A3 & Hst3 & Hsp3 & Hcp3 & Hx3).
   set (s4 := with_sp s3 (sp s3 - 1)).
   assert (Ha3 : val_ok s3 a) by (eapply pres_val_ok; eauto).
-  destruct (hput_val s4 a W3 Ha3) as (a' & s5 & E5 & P5 & W5 & T5 & A5 & Hst5 & Hsp5 & Hx5).
+  destruct (hput_val s4 a W3 Ha3) as (a' & s5 & E5 & P5 & W5 & T5 & A5 & Hst5 & Hsp5 & Hcp5 & Hx5).
   assert (Hcons : cons_ s = ROk (VPair a' d) s5).
   { unfold cons_. pop_argc_tac H s 2 2 (Some 2).
     fold s1. rewrite (bind_ok _ _ _ _ _ (pop_raw_top s1 b _ H1)). fold s2.
     rewrite (bind_ok _ _ _ _ _ E3). cbn [as_ptr]. unfold bindM at 1, ret at 1.
-    assert (H2' : stack_top (stack s3) (sp s3) [a]) by (rewrite Hst3, Hsp3; exact H2).
+    assert (H2' : stack_top (stack s3) (scap s3) (sp s3) [a]) by (rewrite Hst3, Hcp3, Hsp3; exact H2).
     rewrite (bind_ok _ _ _ _ _ (pop_raw_top s3 a _ H2')). fold s4.
     rewrite (bind_ok _ _ _ _ _ E5). reflexivity. }
   assert (Hn : new_cell_ok s5 (VPair a' d)).
@@ -667,9 +667,9 @@ Proof.
   intros W Hpv Ho H. unfold called_with in H. cbn [len length rev app N.of_nat Pos.of_succ_nat] in H.
   set (s1 := with_sp s (sp s - 1)).
   set (s2 := with_sp s1 (sp s1 - 1)).
-  pose proof (stack_top_tail _ _ _ _ H) as H1.
-  pose proof (stack_top_tail _ _ _ _ H1) as H2.
-  destruct (hput_val s2 o W Ho) as (op & s3 & E3 & P3 & W3 & T3 & A3 & Hst3 & Hsp3 & Hx3).
+  pose proof (stack_top_tail _ _ _ _ _ H) as H1.
+  pose proof (stack_top_tail _ _ _ _ _ H1) as H2.
+  destruct (hput_val s2 o W Ho) as (op & s3 & E3 & P3 & W3 & T3 & A3 & Hst3 & Hsp3 & Hcp3 & Hx3).
   set (s4 := with_sp s3 (sp s3 - 1)).
   assert (Hrun : set_car s =
     bindM (fun s0 => lift (heap_deref (hp s0) pv) s0)
@@ -680,7 +680,7 @@ Proof.
   { unfold set_car. pop_argc_tac H s 2 2 (Some 2).
     fold s1. rewrite (bind_ok _ _ _ _ _ (pop_raw_top s1 o _ H1)). fold s2.
     rewrite (bind_ok _ _ _ _ _ E3).
-    assert (H2' : stack_top (stack s3) (sp s3) [pv]) by (rewrite Hst3, Hsp3; exact H2).
+    assert (H2' : stack_top (stack s3) (scap s3) (sp s3) [pv]) by (rewrite Hst3, Hcp3, Hsp3; exact H2).
     rewrite (bind_ok _ _ _ _ _ (pop_raw_top s3 pv _ H2')). fold s4. reflexivity. }
   assert (Hd : heap_deref (hp s4) pv = heap_deref (hp s) pv) by (apply (pres_deref s s3 pv P3 Hpv)).
   destruct (absv s pv) as [w|l|] eqn:Ea.
@@ -723,9 +723,9 @@ Proof.
   intros W Hpv Ho H. unfold called_with in H. cbn [len length rev app N.of_nat Pos.of_succ_nat] in H.
   set (s1 := with_sp s (sp s - 1)).
   set (s2 := with_sp s1 (sp s1 - 1)).
-  pose proof (stack_top_tail _ _ _ _ H) as H1.
-  pose proof (stack_top_tail _ _ _ _ H1) as H2.
-  destruct (hput_val s2 o W Ho) as (op & s3 & E3 & P3 & W3 & T3 & A3 & Hst3 & Hsp3 & Hx3).
+  pose proof (stack_top_tail _ _ _ _ _ H) as H1.
+  pose proof (stack_top_tail _ _ _ _ _ H1) as H2.
+  destruct (hput_val s2 o W Ho) as (op & s3 & E3 & P3 & W3 & T3 & A3 & Hst3 & Hsp3 & Hcp3 & Hx3).
   set (s4 := with_sp s3 (sp s3 - 1)).
   assert (Hrun : set_cdr s =
     bindM (fun s0 => lift (heap_deref (hp s0) pv) s0)
@@ -736,7 +736,7 @@ Proof.
   { unfold set_cdr. pop_argc_tac H s 2 2 (Some 2).
     fold s1. rewrite (bind_ok _ _ _ _ _ (pop_raw_top s1 o _ H1)). fold s2.
     rewrite (bind_ok _ _ _ _ _ E3).
-    assert (H2' : stack_top (stack s3) (sp s3) [pv]) by (rewrite Hst3, Hsp3; exact H2).
+    assert (H2' : stack_top (stack s3) (scap s3) (sp s3) [pv]) by (rewrite Hst3, Hcp3, Hsp3; exact H2).
     rewrite (bind_ok _ _ _ _ _ (pop_raw_top s3 pv _ H2')). fold s4. reflexivity. }
   assert (Hd : heap_deref (hp s4) pv = heap_deref (hp s) pv) by (apply (pres_deref s s3 pv P3 Hpv)).
   destruct (absv s pv) as [w|l|] eqn:Ea.
@@ -776,7 +776,7 @@ Proof.
 Qed.
 
 Lemma pop_index_spec s v r :
-  val_ok s v -> stack_top (stack s) (sp s) (v :: r) ->
+  val_ok s v -> stack_top (stack s) (scap s) (sp s) (v :: r) ->
   pop_index s = match aindex (absv s v) with
                 | Some i => ROk i (with_sp s (sp s - 1))
                 | None => RErr E_OTHER [] (with_sp s (sp s - 1))
@@ -792,7 +792,7 @@ Proof.
 Qed.
 
 Lemma pop_vector_spec s v r :
-  val_ok s v -> stack_top (stack s) (sp s) (v :: r) ->
+  val_ok s v -> stack_top (stack s) (scap s) (sp s) (v :: r) ->
   pop_vector s = match absv s v with
                  | ALoc (LVec vid) => ROk vid (with_sp s (sp s - 1))
                  | _ => RErr E_OTHER [] (with_sp s (sp s - 1))
@@ -839,7 +839,7 @@ Theorem vector_length_refines s v :
 Proof.
   intros W Hv H. unfold called_with in H. cbn [len length rev app N.of_nat Pos.of_succ_nat] in H.
   set (s1 := with_sp s (sp s - 1)).
-  pose proof (stack_top_tail _ _ _ _ H) as H1.
+  pose proof (stack_top_tail _ _ _ _ _ H) as H1.
   assert (Hrun : vector_length s =
      match absv s v with
      | ALoc (LVec vid) => (dom l <- vec_get vid; ret (VNum (Fixnum (Z.of_N (len l))))) (with_sp s1 (sp s1 - 1))
@@ -878,8 +878,8 @@ Proof.
   set (s1 := with_sp s (sp s - 1)).
   set (s2 := with_sp s1 (sp s1 - 1)).
   set (s3 := with_sp s2 (sp s2 - 1)).
-  pose proof (stack_top_tail _ _ _ _ H) as H1.
-  pose proof (stack_top_tail _ _ _ _ H1) as H2.
+  pose proof (stack_top_tail _ _ _ _ _ H) as H1.
+  pose proof (stack_top_tail _ _ _ _ _ H1) as H2.
   assert (Hrun : vector_ref s =
     match aindex (absv s k) with
     | Some idx =>
@@ -976,9 +976,9 @@ Proof.
   set (s2 := with_sp s1 (sp s1 - 1)).
   set (s3 := with_sp s2 (sp s2 - 1)).
   set (s4 := with_sp s3 (sp s3 - 1)).
-  pose proof (stack_top_tail _ _ _ _ H) as H1.
-  pose proof (stack_top_tail _ _ _ _ H1) as H2.
-  pose proof (stack_top_tail _ _ _ _ H2) as H3.
+  pose proof (stack_top_tail _ _ _ _ _ H) as H1.
+  pose proof (stack_top_tail _ _ _ _ _ H1) as H2.
+  pose proof (stack_top_tail _ _ _ _ _ H2) as H3.
   assert (Hrun : vector_set s =
     match aindex (absv s k) with
     | Some idx =>
@@ -1035,8 +1035,8 @@ Proof.
   set (s1 := with_sp s (sp s - 1)).
   set (s2 := with_sp s1 (sp s1 - 1)).
   set (s3 := with_sp s2 (sp s2 - 1)).
-  pose proof (stack_top_tail _ _ _ _ H) as H1.
-  pose proof (stack_top_tail _ _ _ _ H1) as H2.
+  pose proof (stack_top_tail _ _ _ _ _ H) as H1.
+  pose proof (stack_top_tail _ _ _ _ _ H1) as H2.
   assert (Hrun : vector_fill s =
     match absv s v with
     | ALoc (LVec vid) =>
@@ -1064,13 +1064,13 @@ Qed.
 Lemma with_sp_same s : with_sp s (sp s) = s.
 Proof. destruct s; reflexivity. Qed.
 
-Lemma pop_n_spec l : forall acc s, stack_top (stack s) (sp s) l ->
+Lemma pop_n_spec l : forall acc s, stack_top (stack s) (scap s) (sp s) l ->
   exists n, pop_n (length l) acc s = ROk (rev l ++ acc) (with_sp s n).
 Proof.
   induction l as [|v r IH]; intros acc s H; cbn [length pop_n].
   - exists (sp s). unfold ret. now rewrite with_sp_same.
   - rewrite (bind_ok _ _ _ _ _ (pop_raw_top s v r H)).
-    destruct (IH (v :: acc) (with_sp s (sp s - 1)) (stack_top_tail _ _ _ _ H)) as (n & En).
+    destruct (IH (v :: acc) (with_sp s (sp s - 1)) (stack_top_tail _ _ _ _ _ H)) as (n & En).
     exists n. rewrite En. cbn [rev]. rewrite <- app_assoc. reflexivity.
 Qed.
 
@@ -1145,7 +1145,7 @@ Theorem vector_refines s args :
 Proof.
   intros W Hargs H. unfold called_with in H.
   set (s1 := with_sp s (sp s - 1)).
-  pose proof (stack_top_tail _ _ _ _ H) as H1.
+  pose proof (stack_top_tail _ _ _ _ _ H) as H1.
   destruct (pop_n_spec (rev args) [] s1 H1) as (n & En).
   rewrite rev_involutive, app_nil_r in En.
   destruct (wrap_new_vector (with_sp s1 n) args W Hargs) as (p & vid & s' & E & R).
@@ -1380,8 +1380,8 @@ Proof.
   set (s1 := with_sp s (sp s - 1)).
   set (s2 := with_sp s1 (sp s1 - 1)).
   set (s3 := with_sp s2 (sp s2 - 1)).
-  pose proof (stack_top_tail _ _ _ _ H) as H1.
-  pose proof (stack_top_tail _ _ _ _ H1) as H2.
+  pose proof (stack_top_tail _ _ _ _ _ H) as H1.
+  pose proof (stack_top_tail _ _ _ _ _ H1) as H2.
   destruct (deref_index s k Hk) as (c & Hc & Hi).
   assert (Hrun : make_vector s =
     match c with
@@ -1453,8 +1453,8 @@ Proof.
   set (s1 := with_sp s (sp s - 1)).
   set (s2 := with_sp s1 (sp s1 - 1)).
   set (s3 := with_sp s2 (sp s2 - 1)).
-  pose proof (stack_top_tail _ _ _ _ H) as H1.
-  pose proof (stack_top_tail _ _ _ _ H1) as H2.
+  pose proof (stack_top_tail _ _ _ _ _ H) as H1.
+  pose proof (stack_top_tail _ _ _ _ _ H1) as H2.
   assert (Hrun : vector_copy s =
     match aindex (absv s k) with
     | Some i =>
@@ -1581,7 +1581,7 @@ Definition copied (txs fxs txs' : list aval) (at_ sv ev : N) : Prop :=
 
 Lemma vmc_after_spec s start end_ tov atv fromv :
   values_are_refs s -> val_ok s tov -> val_ok s atv -> val_ok s fromv ->
-  stack_top (stack s) (sp s) [fromv; atv; tov] ->
+  stack_top (stack s) (scap s) (sp s) [fromv; atv; tov] ->
   match absv s fromv, aindex (absv s atv), absv s tov with
   | ALoc (LVec fid), Some at_, ALoc (LVec tid) =>
       exists fxs txs, a_vec (abs s) fid = Some fxs /\ a_vec (abs s) tid = Some txs /\
@@ -1603,8 +1603,8 @@ Proof.
   set (s1 := with_sp s (sp s - 1)).
   set (s2 := with_sp s1 (sp s1 - 1)).
   set (s3 := with_sp s2 (sp s2 - 1)).
-  pose proof (stack_top_tail _ _ _ _ H) as H1.
-  pose proof (stack_top_tail _ _ _ _ H1) as H2.
+  pose proof (stack_top_tail _ _ _ _ _ H) as H1.
+  pose proof (stack_top_tail _ _ _ _ _ H1) as H2.
   pose proof (pop_vector_spec s fromv _ Hfrom H) as Pf. fold s1 in Pf.
   pose proof (pop_index_spec s1 atv _ Hat H1) as Pa. change (absv s1 atv) with (absv s atv) in Pa. fold s2 in Pa.
   pose proof (pop_vector_spec s2 tov [] Hto H2) as Pt. change (absv s2 tov) with (absv s tov) in Pt. fold s3 in Pt.
@@ -1715,7 +1715,7 @@ Theorem vector_copy_mut_refines3 s tov atv fromv :
 Proof.
   intros W Hto Hat Hfrom H. unfold called_with in H. cbn [len length rev app N.of_nat Pos.of_succ_nat] in H.
   set (s1 := with_sp s (sp s - 1)).
-  pose proof (stack_top_tail _ _ _ _ H) as H1.
+  pose proof (stack_top_tail _ _ _ _ _ H) as H1.
   assert (E : vector_mut_copy s = vmc_after None None s1).
   { unfold vector_mut_copy. pop_argc_tac H s 3 3 (Some 5). reflexivity. }
   rewrite E. exact (vmc_after_spec s1 None None tov atv fromv W Hto Hat Hfrom H1).
@@ -1732,8 +1732,8 @@ Proof.
   intros W Hto Hat Hfrom Hst H. unfold called_with in H. cbn [len length rev app N.of_nat Pos.of_succ_nat] in H.
   set (s1 := with_sp s (sp s - 1)).
   set (s2 := with_sp s1 (sp s1 - 1)).
-  pose proof (stack_top_tail _ _ _ _ H) as H1.
-  pose proof (stack_top_tail _ _ _ _ H1) as H2.
+  pose proof (stack_top_tail _ _ _ _ _ H) as H1.
+  pose proof (stack_top_tail _ _ _ _ _ H1) as H2.
   pose proof (pop_index_spec s1 startv _ Hst H1) as Ps. change (absv s1 startv) with (absv s startv) in Ps. fold s2 in Ps.
   assert (E : vector_mut_copy s =
      bindM (dom b <- pop_index; ret (Some b)) (fun start => vmc_after start None) s1).
@@ -1758,9 +1758,9 @@ Proof.
   set (s1 := with_sp s (sp s - 1)).
   set (s2 := with_sp s1 (sp s1 - 1)).
   set (s3 := with_sp s2 (sp s2 - 1)).
-  pose proof (stack_top_tail _ _ _ _ H) as H1.
-  pose proof (stack_top_tail _ _ _ _ H1) as H2.
-  pose proof (stack_top_tail _ _ _ _ H2) as H3.
+  pose proof (stack_top_tail _ _ _ _ _ H) as H1.
+  pose proof (stack_top_tail _ _ _ _ _ H1) as H2.
+  pose proof (stack_top_tail _ _ _ _ _ H2) as H3.
   pose proof (pop_index_spec s1 endv _ Hen H1) as Pe. change (absv s1 endv) with (absv s endv) in Pe. fold s2 in Pe.
   pose proof (pop_index_spec s2 startv _ Hst H2) as Ps. change (absv s2 startv) with (absv s startv) in Ps. fold s3 in Ps.
   assert (E : vector_mut_copy s =
@@ -1940,8 +1940,8 @@ Proof.
   set (s1 := with_sp s (sp s - 1)).
   set (s2 := with_sp s1 (sp s1 - 1)).
   set (s3 := with_sp s2 (sp s2 - 1)).
-  pose proof (stack_top_tail _ _ _ _ H) as H1.
-  pose proof (stack_top_tail _ _ _ _ H1) as H2.
+  pose proof (stack_top_tail _ _ _ _ _ H) as H1.
+  pose proof (stack_top_tail _ _ _ _ _ H1) as H2.
   pose proof (pop_index_spec s1 k _ Hk H1) as Pk. change (absv s1 k) with (absv s k) in Pk. fold s2 in Pk.
   destruct (val_deref s v Hv) as (c & Hc & _ & _).
   assert (Hrun : forall i, aindex (absv s k) = Some i -> list_tail fuel s =
@@ -2007,8 +2007,8 @@ Proof.
   set (s1 := with_sp s (sp s - 1)).
   set (s2 := with_sp s1 (sp s1 - 1)).
   set (s3 := with_sp s2 (sp s2 - 1)).
-  pose proof (stack_top_tail _ _ _ _ H) as H1.
-  pose proof (stack_top_tail _ _ _ _ H1) as H2.
+  pose proof (stack_top_tail _ _ _ _ _ H) as H1.
+  pose proof (stack_top_tail _ _ _ _ _ H1) as H2.
   pose proof (pop_index_spec s1 k _ Hk H1) as Pk. change (absv s1 k) with (absv s k) in Pk. fold s2 in Pk.
   destruct (val_deref s v Hv) as (c & Hc & _ & _).
   destruct (aindex (absv s k)) as [i|] eqn:Ei.
@@ -2109,7 +2109,7 @@ Proof.
   intros W Hv H Hch Hfuel. unfold called_with in H. cbn [len length rev app N.of_nat Pos.of_succ_nat] in H.
   set (s1 := with_sp s (sp s - 1)).
   set (s2 := with_sp s1 (sp s1 - 1)).
-  pose proof (stack_top_tail _ _ _ _ H) as H1.
+  pose proof (stack_top_tail _ _ _ _ _ H) as H1.
   destruct (achain_pchain s W _ _ _ Hch v Hv eq_refl) as (cells & e' & Hpc & Hm & He & Hve).
   assert (Hlen : length cells = length xs) by (rewrite <- Hm; now rewrite map_length).
   destruct (val_deref s v Hv) as (c & Hc & _ & _).
@@ -2207,7 +2207,7 @@ Lemma cons_cell s ca tp :
     target_ok s' p /\ ~ live (hp s) p /\
     absv s' (VPtr p) = ALoc (LPair p) /\
     a_pair (abs s') p = Some (absv s (VPtr ca), absv s (VPtr tp)) /\
-    st s' = st s /\ stack s' = stack s /\ sp s' = sp s /\
+    st s' = st s /\ stack s' = stack s /\ sp s' = sp s /\ scap s' = scap s /\
     heap_get (hp s') p = Ok (VPair ca tp).
 Proof.
   intros W Ta Tt.
@@ -2217,7 +2217,7 @@ Proof.
   pose proof (fresh_pres _ _ _ _ F) as P.
   exists p, (with_heap s h').
   destruct F as (_ & Hnl & _ & _ & Hg & _).
-  refine (conj E (conj P (conj W' (conj T' (conj Hnl (conj _ (conj _ (conj eq_refl (conj eq_refl (conj eq_refl Hg)))))))))).
+  refine (conj E (conj P (conj W' (conj T' (conj Hnl (conj _ (conj _ (conj eq_refl (conj eq_refl (conj eq_refl (conj eq_refl Hg))))))))))).
   - cbn [absv with_heap hp]. now rewrite Hg.
   - cbn [abs a_pair with_heap hp]. rewrite Hg. f_equal. f_equal.
     + apply (pres_absv s (with_heap s h') (VPtr ca) P Ta).
@@ -2236,7 +2236,7 @@ Proof.
     + cbn [map rev]. constructor.
     + constructor.
   - inversion Hrl as [|? ? Hx Hr]; subst.
-    destruct (hput_val s x W Hx) as (ca & s1 & E1 & P1 & W1 & T1 & A1 & _ & _ & Hx1).
+    destruct (hput_val s x W Hx) as (ca & s1 & E1 & P1 & W1 & T1 & A1 & _ & _ & _ & Hx1).
     assert (Tt1 : target_ok s1 tp) by (eapply pres_target_ok; eauto).
     destruct (cons_cell s1 ca tp W1 T1 Tt1) as (p & s2 & E2 & P2 & W2 & T2 & Hnl2 & Ap2 & Hp2 & Hx2 & _).
     assert (P12 : pres s s2) by (eapply pres_trans; eauto).
@@ -2276,7 +2276,7 @@ Proof.
   intros W Hv H. unfold called_with in H. cbn [len length rev app N.of_nat Pos.of_succ_nat] in H.
   set (s1 := with_sp s (sp s - 1)).
   set (s2 := with_sp s1 (sp s1 - 1)).
-  pose proof (stack_top_tail _ _ _ _ H) as H1.
+  pose proof (stack_top_tail _ _ _ _ _ H) as H1.
   pose proof (pop_vector_spec s1 v [] Hv H1) as Pv. change (absv s1 v) with (absv s v) in Pv. fold s2 in Pv.
   destruct (absv s v) as [w|l|] eqn:Ea.
   1,3: exists s2; assert (Herr : vector_to_list s = RErr E_OTHER [] s2)
@@ -2415,7 +2415,7 @@ Proof.
   intros W Hv H Hch Hfuel. unfold called_with in H. cbn [len length rev app N.of_nat Pos.of_succ_nat] in H.
   set (s1 := with_sp s (sp s - 1)).
   set (s2 := with_sp s1 (sp s1 - 1)).
-  pose proof (stack_top_tail _ _ _ _ H) as H1.
+  pose proof (stack_top_tail _ _ _ _ _ H) as H1.
   destruct (achain_pchain s W _ _ _ Hch v Hv eq_refl) as (cells & e' & Hpc & Hm & He & Hve).
   assert (Hlen : length cells = length xs) by (rewrite <- Hm; now rewrite map_length).
   destruct (val_deref s v Hv) as (c & Hc & _ & _).
@@ -2484,7 +2484,7 @@ Lemma type_pred_spec p s v :
                absv s v = match v with VPtr q => cell_val q c | _ => AImm c end /\ data_cell c.
 Proof.
   intros Hv H. unfold called_with in H. cbn [len length rev app N.of_nat Pos.of_succ_nat] in H.
-  pose proof (stack_top_tail _ _ _ _ H) as H1.
+  pose proof (stack_top_tail _ _ _ _ _ H) as H1.
   destruct (val_deref s v Hv) as (c & Hc & Ha & Hd).
   exists c, (with_sp (with_sp s (sp s - 1)) (sp (with_sp s (sp s - 1)) - 1)).
   refine (conj Hc (conj _ (conj eq_refl (conj eq_refl (conj Ha Hd))))).
@@ -2991,8 +2991,8 @@ Proof.
   set (s1 := with_sp s (sp s - 1)).
   set (s2 := with_sp s1 (sp s1 - 1)).
   set (s3 := with_sp s2 (sp s2 - 1)).
-  pose proof (stack_top_tail _ _ _ _ H) as H1.
-  pose proof (stack_top_tail _ _ _ _ H1) as H2.
+  pose proof (stack_top_tail _ _ _ _ _ H) as H1.
+  pose proof (stack_top_tail _ _ _ _ _ H1) as H2.
   assert (Hint3 : sym_interned s3) by exact Hint.
   destruct (equal_spec s3 b a n fuel W Hint3 Hb Ha
               (adatum_transfer s s3 eq_refl eq_refl _ _ Db) (adatum_transfer s s3 eq_refl eq_refl _ _ Da) Hf)
@@ -3077,10 +3077,10 @@ Proof.
   - intros q Hq. rewrite Hgo; [now apply A2|]. intros ->. contradiction.
 Qed.
 
-Definition same_regs (s s' : vm) : Prop := st s' = st s /\ stack s' = stack s /\ sp s' = sp s.
+Definition same_regs (s s' : vm) : Prop := st s' = st s /\ stack s' = stack s /\ sp s' = sp s /\ scap s' = scap s.
 Lemma same_regs_refl s : same_regs s s. Proof. repeat split. Qed.
 Lemma same_regs_trans a b c : same_regs a b -> same_regs b c -> same_regs a c.
-Proof. intros (A1 & A2 & A3) (B1 & B2 & B3). repeat split; congruence. Qed.
+Proof. intros (A1 & A2 & A3 & A4) (B1 & B2 & B3 & B4). repeat split; congruence. Qed.
 
 (* the state of clone_list after some iterations: the fresh chain h .. t ends in the
    fresh cell holding (), nothing of the state [s0] at entry has been touched *)
@@ -3121,7 +3121,7 @@ Lemma clone_step s0 sk h t nilp ps cs c a :
     clone_inv s0 (with_heap s1 h'') h p nilp (ps ++ [t]) (cs ++ [c]) a.
 Proof.
   intros (P0 & W & Hcc & Hnd & Hfl & Htg & Tn & Hgn & Hnn) Hlen Ta.
-  destruct (cons_cell sk a nilp W Ta Tn) as (p & s1 & E1 & P1 & W1 & T1 & Hnl1 & Ap1 & Hp1 & Hx1a & Hx1b & Hx1c & Ecell).
+  destruct (cons_cell sk a nilp W Ta Tn) as (p & s1 & E1 & P1 & W1 & T1 & Hnl1 & Ap1 & Hp1 & Hx1a & Hx1b & Hx1c & Hx1d & Ecell).
   assert (Hx1 : same_regs sk s1) by (repeat split; assumption).
   pose proof (cchain_last _ _ _ _ _ _ _ Hcc Hlen) as Hgt.
   assert (Hlt : live (hp sk) t).
@@ -3257,7 +3257,7 @@ Proof.
   pose proof (fresh_pres _ _ _ _ FA) as PA.
   set (sA := with_heap s0 hA) in *.
   destruct (cons_cell sA a nilp WA (pres_target_ok _ _ _ PA Ta) TnA)
-    as (p & sB & EB & PB & WB & TB & HnlB & ApB & HpB & HxB1 & HxB2 & HxB3 & Ecell).
+    as (p & sB & EB & PB & WB & TB & HnlB & ApB & HpB & HxB1 & HxB2 & HxB3 & HxB4 & Ecell).
   assert (P0B : pres s0 sB) by (eapply pres_trans; eauto).
   assert (HregB : same_regs s0 sB) by (repeat split; assumption).
   assert (Inv : clone_inv s0 sB p p nilp [] [] a).
@@ -3309,12 +3309,12 @@ Lemma append_loop_spec fuel s0 : forall rl xss,
                        (length xs + 2 < fuel)%nat) rl xss ->
   forall rl2 sk tl locs cars lastp,
   values_are_refs s0 -> pres s0 sk -> values_are_refs sk ->
-  stack_top (stack sk) (sp sk) (rl ++ rl2) -> target_ok sk tl ->
+  stack_top (stack sk) (scap sk) (sp sk) (rl ++ rl2) -> target_ok sk tl ->
   cchain (hp sk) tl locs cars lastp ->
   Forall (fun p => ~ live (hp s0) p /\ live (hp sk) p) locs -> Forall (target_ok s0) cars ->
   exists r s' locs' cars',
     append_loop fuel (length (rl ++ rl2)) (VPtr tl) sk = append_loop fuel (length rl2) (VPtr r) s' /\
-    stack_top (stack s') (sp s') rl2 /\
+    stack_top (stack s') (scap s') (sp s') rl2 /\
     pres s0 s' /\ values_are_refs s' /\ target_ok s' r /\
     cchain (hp s') r (locs' ++ locs) (cars' ++ cars) lastp /\
     Forall (fun p => ~ live (hp s0) p /\ live (hp s') p) (locs' ++ locs) /\
@@ -3327,7 +3327,7 @@ Proof.
     refine (conj eq_refl (conj Hst (conj P0 (conj Wk (conj Ttl (conj Hacc (conj Hfresh (conj _ eq_refl)))))))). constructor.
   - cbn [app length append_loop]. cbn [app] in Hst.
     set (sk1 := with_sp sk (sp sk - 1)).
-    pose proof (stack_top_tail _ _ _ _ Hst) as Hst1.
+    pose proof (stack_top_tail _ _ _ _ _ Hst) as Hst1.
     destruct (achain_pchain s0 W0 _ _ _ Hch l Hvl eq_refl) as (cells & e' & Hpc & Hm & He & Hve).
     destruct (pchain_end_deref _ _ _ _ Hpc) as (ce & Hce & Hpe).
     assert (Ece : ce = VNil) by (apply (nil_deref s0 e' ce Hve Hce); exact He). subst ce.
@@ -3394,8 +3394,8 @@ Proof.
       { apply Forall_app. split; [|exact Hcars]. rewrite Hcs. constructor; [exact Ta0|].
         apply Forall_forall. intros q Hq. apply in_map_iff in Hq. destruct Hq as (ad & <- & Hin).
         rewrite Forall_forall in Hcells. exact (proj1 (Hcells ad Hin)). }
-      assert (Hst3 : stack_top (stack s3) (sp s3) (rl ++ rl2)).
-      { destruct Hreg as (_ & R2 & R3). cbn [s3 with_heap stack sp]. rewrite R2, R3. exact Hst1. }
+      assert (Hst3 : stack_top (stack s3) (scap s3) (sp s3) (rl ++ rl2)).
+      { destruct Hreg as (_ & R2 & R3 & R4). cbn [s3 with_heap stack sp scap]. rewrite R2, R3, R4. exact Hst1. }
       destruct (IH rl2 s3 h ((ps ++ [t]) ++ locs) ((cs ++ [c]) ++ cars) lastp W0 P03 W3 Hst3 Th3 Hall Hfresh3 Hcars3)
         as (r & s' & locs' & cars' & E & R0 & R1 & R2 & R3 & R4 & R5 & R6 & R7).
       exists r, s', (locs' ++ (ps ++ [t])), (cars' ++ (cs ++ [c])).
@@ -3430,9 +3430,9 @@ Proof.
   rewrite rev_app_distr in H. cbn [rev app] in H.
   set (s1 := with_sp s (sp s - 1)).
   set (s2 := with_sp s1 (sp s1 - 1)).
-  pose proof (stack_top_tail _ _ _ _ H) as H1.
-  pose proof (stack_top_tail _ _ _ _ H1) as H2.
-  destruct (hput_val s2 last W Hlast) as (lastp & s3 & E3 & P3 & W3 & T3 & A3 & Hst3 & Hsp3 & Hx3).
+  pose proof (stack_top_tail _ _ _ _ _ H) as H1.
+  pose proof (stack_top_tail _ _ _ _ _ H1) as H2.
+  destruct (hput_val s2 last W Hlast) as (lastp & s3 & E3 & P3 & W3 & T3 & A3 & Hst3 & Hsp3 & Hcp3 & Hx3).
   assert (Hlen : len (lists ++ [last]) = N.of_nat (length lists) + 1).
   { unfold len. rewrite app_length. cbn [length]. lia. }
   (* the lists, as seen from s3, in the order in which they are popped *)
@@ -3443,8 +3443,8 @@ Proof.
     inversion Hlists; subst. constructor; [|now apply IH].
     refine (conj (pres_val_ok s s3 l P3 ltac:(assumption)) (conj _ Hf)).
     rewrite (pres_absv s s3 l P3) by assumption. eapply achain_pres; eauto. }
-  assert (Hst : stack_top (stack s3) (sp s3) (rev lists)) by (rewrite Hst3, Hsp3; exact H2).
-  assert (Hst' : stack_top (stack s3) (sp s3) (rev lists ++ [])) by (rewrite app_nil_r; exact Hst).
+  assert (Hst : stack_top (stack s3) (scap s3) (sp s3) (rev lists)) by (rewrite Hst3, Hcp3, Hsp3; exact H2).
+  assert (Hst' : stack_top (stack s3) (scap s3) (sp s3) (rev lists ++ [])) by (rewrite app_nil_r; exact Hst).
   destruct (append_loop_spec fuel s3 (rev lists) (rev xss) HF3 [] s3 lastp [] [] lastp W3 (pres_refl s3) W3 Hst' T3
               (cc_nil _ _) (Forall_nil _) (Forall_nil _))
     as (r & s' & locs & cars & E & _ & R1 & R2 & R3 & R4 & R5 & R6 & R7).
@@ -3585,7 +3585,7 @@ Proof.
   intros W Hv H Hch Hfuel. unfold called_with in H. cbn [len length rev app N.of_nat Pos.of_succ_nat] in H.
   set (s1 := with_sp s (sp s - 1)).
   set (s2 := with_sp s1 (sp s1 - 1)).
-  pose proof (stack_top_tail _ _ _ _ H) as H1.
+  pose proof (stack_top_tail _ _ _ _ _ H) as H1.
   destruct (achain_pchain s W _ _ _ Hch v Hv eq_refl) as (cells & e' & Hpc & Hm & He & Hve).
   assert (Hlen : length cells = length xs) by (rewrite <- Hm; now rewrite map_length).
   destruct (pchain_end_deref _ _ _ _ Hpc) as (ce & Hce & Hpe).
@@ -3613,90 +3613,66 @@ Proof.
 Qed.
 
 (* ============================================ from apply_builtin to called_with *)
-Lemma list_get_nth {A} (l : list A) i : list_get l i = nth_error l (N.to_nat i).
-Proof. destruct l; reflexivity. Qed.
-
-Lemma list_set_get_same {A} (l : list A) i v :
-  i < len l -> list_get (list_set l i v) i = Some v.
-Proof.
-  intros H. rewrite list_get_nth. unfold list_set. rewrite list_set_nat_nth by (unfold len in H; lia).
-  now rewrite Nat.eqb_refl.
-Qed.
-
-Lemma list_set_get_other {A} (l : list A) i j v :
-  i <> j -> list_get (list_set l i v) j = list_get l j.
-Proof.
-  intros H. rewrite !list_get_nth. unfold list_set.
-  destruct (N.ltb_spec i (len l)) as [Hlt|Hge].
-  - rewrite list_set_nat_nth by (unfold len in Hlt; lia).
-    assert (E : (N.to_nat j =? N.to_nat i)%nat = false) by (apply Nat.eqb_neq; lia). now rewrite E.
-  - (* out of range: list_set_nat leaves the list unchanged *)
-    assert (Hid : forall (l0 : list A) k, (length l0 <= k)%nat -> list_set_nat l0 k v = l0).
-    { induction l0 as [|y r IH]; intros [|k] Hk; cbn in *; try reflexivity; try lia. f_equal. apply IH. lia. }
-    rewrite Hid by (unfold len in Hge; lia). reflexivity.
-Qed.
-
+(* Stack::push on the slot table: never fails; when sp + 1 reaches the capacity the
+   capacity doubles, so sp stays below it *)
 Lemma push_spec s v :
-  sp s < len (stack s) ->
-  exists s', push v s = ROk tt s' /\ sp s' = sp s + 1 /\ sp s' < len (stack s') /\
-    list_get (stack s') (sp s') = Some v /\
-    (forall j, j <= sp s -> list_get (stack s') j = list_get (stack s) j) /\
+  sp s < scap s ->
+  exists s', push v s = ROk tt s' /\ sp s' = sp s + 1 /\ sp s' < scap s' /\ scap s <= scap s' /\
+    tget (stack s') (sp s') = Some v /\
+    (forall j, j <= sp s -> tget (stack s') j = tget (stack s) j) /\
     hp s' = hp s /\ st s' = st s.
 Proof.
   intros Hinv. unfold push.
-  set (l := if sp s + 1 <? len (stack s) then stack s else stack_grow (stack s)).
-  assert (Hl : sp s + 1 < len l /\ forall j, j <= sp s -> list_get l j = list_get (stack s) j).
-  { unfold l. destruct (N.ltb_spec (sp s + 1) (len (stack s))) as [Hlt|Hge].
-    - split; [exact Hlt | reflexivity].
-    - unfold stack_grow, len in *. rewrite app_length, repeat_length. split; [lia|].
-      intros j Hj. rewrite !list_get_nth. apply nth_error_app1. lia. }
-  destruct Hl as (Hlt & Hlow).
-  eexists. split; [reflexivity|]. cbn [with_stack sp stack hp st].
-  refine (conj eq_refl (conj _ (conj _ (conj _ (conj eq_refl eq_refl))))).
-  - unfold list_set, len. rewrite list_set_nat_length. exact Hlt.
-  - now apply list_set_get_same.
-  - intros j Hj. rewrite list_set_get_other by lia. now apply Hlow.
+  set (cap := if sp s + 1 <? scap s then scap s else scap s * 2).
+  assert (Hcap : sp s + 1 < cap /\ scap s <= cap).
+  { unfold cap. destruct (N.ltb_spec (sp s + 1) (scap s)); lia. }
+  eexists. split; [reflexivity|]. cbn [with_scap with_stack sp stack scap hp st].
+  refine (conj eq_refl (conj (proj1 Hcap) (conj (proj2 Hcap) (conj _ (conj _ (conj eq_refl eq_refl)))))).
+  - apply tget_tset_same.
+  - intros j Hj. apply tget_tset_other. lia.
 Qed.
 
-Lemma stack_top_ext stk stk' p r :
-  (forall j, j <= p -> list_get stk' j = list_get stk j) -> stack_top stk p r -> stack_top stk' p r.
+Lemma stack_top_ext stk stk' cap cap' p r :
+  (forall j, j <= p -> tget stk' j = tget stk j) -> cap <= cap' ->
+  stack_top stk cap p r -> stack_top stk' cap' p r.
 Proof.
-  revert p. induction r as [|v r IH]; intros p Hext H; cbn [stack_top] in *; [exact I|].
-  destruct H as (Hne & Hg & Hr). refine (conj Hne (conj _ _)).
+  intros Hext Hc. revert p Hext. induction r as [|v r IH]; intros p Hext H; cbn [stack_top] in *; [exact I|].
+  destruct H as (Hne & Hlt & Hg & Hr). refine (conj Hne (conj _ (conj _ _))).
+  - lia.
   - rewrite Hext by lia. exact Hg.
   - apply IH; [|exact Hr]. intros j Hj. apply Hext. lia.
 Qed.
 
 Lemma push_all_spec args : forall s below,
-  sp s < len (stack s) -> stack_top (stack s) (sp s) below ->
-  exists s', push_all args s = ROk tt s' /\ sp s' < len (stack s') /\
-    stack_top (stack s') (sp s') (rev args ++ below) /\ hp s' = hp s /\ st s' = st s.
+  sp s < scap s -> stack_top (stack s) (scap s) (sp s) below ->
+  exists s', push_all args s = ROk tt s' /\ sp s' < scap s' /\
+    stack_top (stack s') (scap s') (sp s') (rev args ++ below) /\ hp s' = hp s /\ st s' = st s.
 Proof.
   induction args as [|a r IH]; intros s below Hinv Hb; cbn [push_all rev app].
   - exists s. repeat split; auto.
-  - destruct (push_spec s a Hinv) as (s1 & E1 & Hsp1 & Hinv1 & Hg1 & Hlow1 & Hh1 & Hs1).
+  - destruct (push_spec s a Hinv) as (s1 & E1 & Hsp1 & Hinv1 & Hcap1 & Hg1 & Hlow1 & Hh1 & Hs1).
     rewrite (bind_ok _ _ _ _ _ E1).
-    assert (Hb1 : stack_top (stack s1) (sp s1) (a :: below)).
-    { cbn [stack_top]. refine (conj _ (conj Hg1 _)); [lia|].
-      replace (sp s1 - 1) with (sp s) by lia. eapply stack_top_ext; [|exact Hb]. exact Hlow1. }
+    assert (Hb1 : stack_top (stack s1) (scap s1) (sp s1) (a :: below)).
+    { cbn [stack_top]. refine (conj _ (conj Hinv1 (conj _ _))); [lia | now rewrite Hg1 |].
+      replace (sp s1 - 1) with (sp s) by lia. eapply stack_top_ext; [exact Hlow1 | exact Hcap1 | exact Hb]. }
     destruct (IH s1 (a :: below) Hinv1 Hb1) as (s' & E & Hinv' & Ht & Hh & Hs').
     exists s'. rewrite <- app_assoc. cbn [app]. repeat split; auto; congruence.
 Qed.
 
 (* the machine state in which a builtin finds itself when it is applied to [args] *)
 Theorem apply_builtin_called b args s :
-  sp s < len (stack s) ->
+  sp s < scap s ->
   exists s1, apply_builtin b args s = call_builtin b s1 /\ called_with s1 args /\
              hp s1 = hp s /\ st s1 = st s.
 Proof.
   intros Hinv.
   destruct (push_all_spec args s [] Hinv I) as (s0 & E0 & Hinv0 & Ht0 & Hh0 & Hs0).
-  destruct (push_spec s0 (VArgc (len args)) Hinv0) as (s1 & E1 & Hsp1 & Hinv1 & Hg1 & Hlow1 & Hh1 & Hs1).
+  destruct (push_spec s0 (VArgc (len args)) Hinv0) as (s1 & E1 & Hsp1 & Hinv1 & Hcap1 & Hg1 & Hlow1 & Hh1 & Hs1).
   exists s1. refine (conj _ (conj _ (conj _ _))); try congruence.
   - unfold apply_builtin. rewrite (bind_ok _ _ _ _ _ E0), (bind_ok _ _ _ _ _ E1). reflexivity.
-  - unfold called_with. cbn [stack_top]. refine (conj _ (conj Hg1 _)); [lia|].
+  - unfold called_with. cbn [stack_top]. refine (conj _ (conj Hinv1 (conj _ _))); [lia | now rewrite Hg1 |].
     replace (sp s1 - 1) with (sp s0) by lia. rewrite app_nil_r in Ht0.
-    eapply stack_top_ext; [|exact Ht0]. exact Hlow1.
+    eapply stack_top_ext; [exact Hlow1 | exact Hcap1 | exact Ht0].
 Qed.
 
 Lemma pres_hp_st s t s' : hp t = hp s -> st t = st s -> pres t s' -> pres s s'.
@@ -3704,7 +3680,7 @@ Proof. intros E1 E2. unfold pres. now rewrite E1, E2. Qed.
 
 (* end to end: the CALL of cons on a machine whose stack pointer is in range *)
 Theorem apply_cons s a b :
-  sp s < len (stack s) -> values_are_refs s -> val_ok s a -> val_ok s b ->
+  sp s < scap s -> values_are_refs s -> val_ok s a -> val_ok s b ->
   exists p s', apply_builtin cons_ [a; b] s = ROk (VPtr p) s' /\
     ~ live (hp s) p /\ a_pair (abs s') p = Some (absv s a, absv s b) /\
     pres s s' /\ values_are_refs s' /\ target_ok s' p.
@@ -3870,7 +3846,7 @@ Proof.
   intros Hv H Hd0 Hnext Ht0 Hmeet Hfuel. unfold called_with in H. cbn [len length rev app N.of_nat Pos.of_succ_nat] in H.
   set (s1 := with_sp s (sp s - 1)).
   set (s2 := with_sp s1 (sp s1 - 1)).
-  pose proof (stack_top_tail _ _ _ _ H) as H1.
+  pose proof (stack_top_tail _ _ _ _ _ H) as H1.
   exists s2. refine (conj _ (conj eq_refl eq_refl)).
   unfold is_list. pop_argc_tac H s 1 1 (Some 1). fold s1.
   unfold bindM at 1. rewrite (pop_value_top s1 v [] H1). fold s2. unfold lift.
@@ -3917,9 +3893,9 @@ Proof.
   { unfold lists. rewrite rev_app_distr. cbn [rev]. rewrite <- app_assoc. reflexivity. }
   set (s1 := with_sp s (sp s - 1)).
   set (s2 := with_sp s1 (sp s1 - 1)).
-  pose proof (stack_top_tail _ _ _ _ H) as H1.
-  pose proof (stack_top_tail _ _ _ _ H1) as H2.
-  destruct (hput_val s2 last W Hlast) as (lastp & s3 & E3 & P3 & W3 & T3 & A3 & Hst3 & Hsp3 & Hx3).
+  pose proof (stack_top_tail _ _ _ _ _ H) as H1.
+  pose proof (stack_top_tail _ _ _ _ _ H1) as H2.
+  destruct (hput_val s2 last W Hlast) as (lastp & s3 & E3 & P3 & W3 & T3 & A3 & Hst3 & Hsp3 & Hcp3 & Hx3).
   assert (Hlen : len (lists ++ [last]) = N.of_nat (length lists) + 1).
   { unfold len. rewrite app_length. cbn [length]. lia. }
   assert (Hafter : Forall (val_ok s) after /\ val_ok s bad).
@@ -3932,8 +3908,8 @@ Proof.
     inversion Hafter; subst. constructor; [|now apply IH].
     refine (conj (pres_val_ok s s3 l P3 ltac:(assumption)) (conj _ Hf)).
     rewrite (pres_absv s s3 l P3) by assumption. eapply achain_pres; eauto. }
-  assert (Hst : stack_top (stack s3) (sp s3) (rev after ++ bad :: rev before)).
-  { rewrite Hst3, Hsp3, <- Hrev. exact H2. }
+  assert (Hst : stack_top (stack s3) (scap s3) (sp s3) (rev after ++ bad :: rev before)).
+  { rewrite Hst3, Hcp3, Hsp3, <- Hrev. exact H2. }
   destruct (append_loop_spec fuel s3 (rev after) (rev xss) HF3 (bad :: rev before) s3 lastp [] [] lastp W3
               (pres_refl s3) W3 Hst T3 (cc_nil _ _) (Forall_nil _) (Forall_nil _))
     as (r & s' & locs & cars & E & Hst' & R1 & R2 & _).
@@ -3978,9 +3954,9 @@ Proof.
 Qed.
 
 (* ---------------------------------------------- hand model: calls in sequence *)
-(* a computation that leaves the stack vector alone and does not raise sp *)
+(* a computation that leaves the stack slots and capacity alone and does not raise sp *)
 Definition regs_mono {A} (m : M A) : Prop :=
-  forall s a s', m s = ROk a s' -> stack s' = stack s /\ sp s' <= sp s.
+  forall s a s', m s = ROk a s' -> scap s' = scap s /\ sp s' <= sp s.
 
 Lemma mono_ret {A} (a : A) : regs_mono (ret a).
 Proof. intros s x s' [= <- <-]. split; [reflexivity | lia]. Qed.
@@ -3997,19 +3973,19 @@ Proof. intros s a s' E. unfold lift in E. destruct o; try discriminate. injectio
 Lemma mono_pop_raw : regs_mono pop_raw.
 Proof.
   intros s a s' E. unfold pop_raw in E. destruct (sp s =? 0); [discriminate|].
-  destruct (list_get (stack s) (sp s)); [|discriminate]. injection E as <- <-. cbn [with_sp with_stack stack sp]. split; [reflexivity|lia].
+  destruct (sp s <? scap s); [|discriminate]. injection E as <- <-. cbn [with_sp with_stack scap sp]. split; [reflexivity|lia].
 Qed.
 Lemma mono_hderef v : regs_mono (hderef v).
 Proof. intros s a s' E. rewrite hderef_eq in E. exact (mono_lift _ s a s' E). Qed.
 Lemma mono_hput v : regs_mono (hput v).
 Proof.
   intros s a s' E. unfold hput in E. destruct (heap_put (hp s) v). injection E as <- <-.
-  cbn [with_heap stack sp]. split; [reflexivity|lia].
+  cbn [with_heap scap sp]. split; [reflexivity|lia].
 Qed.
 Lemma mono_hmaybe_put v : regs_mono (hmaybe_put v).
 Proof.
   intros s a s' E. unfold hmaybe_put in E. destruct (heap_maybe_put (hp s) v). injection E as <- <-.
-  cbn [with_heap stack sp]. split; [reflexivity|lia].
+  cbn [with_heap scap sp]. split; [reflexivity|lia].
 Qed.
 Lemma mono_as_cell bn f v : regs_mono (as_cell bn f v).
 Proof. intros s a s' E. unfold as_cell in E. exact (mono_lift _ s a s' E). Qed.
@@ -4046,7 +4022,7 @@ Qed.
 
 (* a call keeps the stack pointer inside the stack vector *)
 Lemma callb_inv b args s r s' :
-  regs_mono b -> sp s < len (stack s) -> callb b args s = ROk r s' -> sp s' < len (stack s').
+  regs_mono b -> sp s < scap s -> callb b args s = ROk r s' -> sp s' < scap s'.
 Proof.
   intros Hb Hinv E. unfold callb in E.
   destruct (push_all_spec args s [] Hinv I) as (s0 & E0 & Hinv0 & _).
@@ -4056,14 +4032,14 @@ Proof.
 Qed.
 
 Lemma callb_car fuel s v a d :
-  sp s < len (stack s) -> heap_deref (hp s) v = Ok (VPair a d) ->
+  sp s < scap s -> heap_deref (hp s) v = Ok (VPair a d) ->
   exists s', callb (car fuel) [v] s = ROk (VPtr a) s' /\ hp s' = hp s /\ st s' = st s /\
-             sp s' < len (stack s').
+             sp s' < scap s'.
 Proof.
   intros Hinv Hd.
   destruct (apply_builtin_called (car fuel) [v] s Hinv) as (s1 & E & Hc & E1 & E2).
   unfold called_with in Hc. cbn [len length rev app N.of_nat Pos.of_succ_nat] in Hc.
-  pose proof (stack_top_tail _ _ _ _ Hc) as H1.
+  pose proof (stack_top_tail _ _ _ _ _ Hc) as H1.
   assert (Hrun : car fuel s1 = ROk (VPtr a) (with_sp s1 (sp s1 - 1 - 1))).
   { unfold car. pop_argc_tac Hc s1 1 1 (Some 1).
     unfold bindM at 1. rewrite (pop_value_top (with_sp s1 (sp s1 - 1)) v [] H1). unfold lift.
@@ -4075,14 +4051,14 @@ Proof.
 Qed.
 
 Lemma callb_cdr fuel s v a d :
-  sp s < len (stack s) -> heap_deref (hp s) v = Ok (VPair a d) ->
+  sp s < scap s -> heap_deref (hp s) v = Ok (VPair a d) ->
   exists s', callb (cdr fuel) [v] s = ROk (VPtr d) s' /\ hp s' = hp s /\ st s' = st s /\
-             sp s' < len (stack s').
+             sp s' < scap s'.
 Proof.
   intros Hinv Hd.
   destruct (apply_builtin_called (cdr fuel) [v] s Hinv) as (s1 & E & Hc & E1 & E2).
   unfold called_with in Hc. cbn [len length rev app N.of_nat Pos.of_succ_nat] in Hc.
-  pose proof (stack_top_tail _ _ _ _ Hc) as H1.
+  pose proof (stack_top_tail _ _ _ _ _ Hc) as H1.
   assert (Hrun : cdr fuel s1 = ROk (VPtr d) (with_sp s1 (sp s1 - 1 - 1))).
   { unfold cdr. pop_argc_tac Hc s1 1 1 (Some 1).
     unfold bindM at 1. rewrite (pop_value_top (with_sp s1 (sp s1 - 1)) v [] H1). unfold lift.
@@ -4094,13 +4070,13 @@ Proof.
 Qed.
 
 Lemma callb_car_fail fuel s v c :
-  sp s < len (stack s) -> heap_deref (hp s) v = Ok c -> is_pair c = false ->
+  sp s < scap s -> heap_deref (hp s) v = Ok c -> is_pair c = false ->
   render_fail (callb (car fuel) [v] s) /\ render_fail (callb (cdr fuel) [v] s).
 Proof.
   intros Hinv Hd Hp. split.
   - destruct (apply_builtin_called (car fuel) [v] s Hinv) as (s1 & E & Hc & E1 & E2).
     unfold called_with in Hc. cbn [len length rev app N.of_nat Pos.of_succ_nat] in Hc.
-    pose proof (stack_top_tail _ _ _ _ Hc) as H1.
+    pose proof (stack_top_tail _ _ _ _ _ Hc) as H1.
     unfold callb. rewrite E. unfold call_builtin. apply render_fail_bind.
     unfold car. pop_argc_tac Hc s1 1 1 (Some 1).
     unfold bindM at 1. rewrite (pop_value_top (with_sp s1 (sp s1 - 1)) v [] H1). unfold lift.
@@ -4108,7 +4084,7 @@ Proof.
     destruct c; try discriminate Hp; apply fail_cell_render_fail.
   - destruct (apply_builtin_called (cdr fuel) [v] s Hinv) as (s1 & E & Hc & E1 & E2).
     unfold called_with in Hc. cbn [len length rev app N.of_nat Pos.of_succ_nat] in Hc.
-    pose proof (stack_top_tail _ _ _ _ Hc) as H1.
+    pose proof (stack_top_tail _ _ _ _ _ Hc) as H1.
     unfold callb. rewrite E. unfold call_builtin. apply render_fail_bind.
     unfold cdr. pop_argc_tac Hc s1 1 1 (Some 1).
     unfold bindM at 1. rewrite (pop_value_top (with_sp s1 (sp s1 - 1)) v [] H1). unfold lift.
@@ -4117,14 +4093,14 @@ Proof.
 Qed.
 
 Lemma callb_pred p s v c :
-  sp s < len (stack s) -> heap_deref (hp s) v = Ok c ->
+  sp s < scap s -> heap_deref (hp s) v = Ok c ->
   exists s', callb (type_pred p) [v] s = ROk (VBool (p c)) s' /\ hp s' = hp s /\ st s' = st s /\
-             sp s' < len (stack s').
+             sp s' < scap s'.
 Proof.
   intros Hinv Hd.
   destruct (apply_builtin_called (type_pred p) [v] s Hinv) as (s1 & E & Hc & E1 & E2).
   unfold called_with in Hc. cbn [len length rev app N.of_nat Pos.of_succ_nat] in Hc.
-  pose proof (stack_top_tail _ _ _ _ Hc) as H1.
+  pose proof (stack_top_tail _ _ _ _ _ Hc) as H1.
   assert (Hrun : type_pred p s1 = ROk (VBool (p c)) (with_sp s1 (sp s1 - 1 - 1))).
   { unfold type_pred. pop_argc_tac Hc s1 1 1 (Some 1).
     unfold bindM at 1. rewrite (pop_value_top (with_sp s1 (sp s1 - 1)) v [] H1). unfold lift.
@@ -4140,11 +4116,11 @@ Proof. unfold truthy, bindM. rewrite hderef_eq. cbn [heap_deref lift ret]. destr
 
 Lemma length_go_spec fuel s0 v cells e :
   pchain (hp s0) v cells e ->
-  forall s f ce, hp s = hp s0 -> sp s < len (stack s) -> (length cells + 1 <= f)%nat ->
+  forall s f ce, hp s = hp s0 -> sp s < scap s -> (length cells + 1 <= f)%nat ->
     heap_deref (hp s0) e = Ok ce ->
     if is_nil ce then
       exists s', length_go fuel f v s = ROk (VNum (Fixnum (Z.of_nat (length cells)))) s' /\
-                 hp s' = hp s0 /\ st s' = st s /\ sp s' < len (stack s')
+                 hp s' = hp s0 /\ st s' = st s /\ sp s' < scap s'
     else render_fail (length_go fuel f v s).
 Proof.
   intros Hc. induction Hc as [v c Hd Hp | v a d cells e Hd Hc IH]; intros s f ce Eh Hinv Hf Hce.
@@ -4178,7 +4154,7 @@ Qed.
 (* (length l) on the hand model: the number of pairs of a proper list, an error on an
    improper one; nothing changes *)
 Theorem prelude_length_spec fuel s v xs e :
-  values_are_refs s -> val_ok s v -> sp s < len (stack s) ->
+  values_are_refs s -> val_ok s v -> sp s < scap s ->
   achain (abs s) (absv s v) xs e -> (length xs + 1 <= fuel)%nat ->
   (e = AImm VNil ->
      exists s', p_length fuel [v] s = ROk (VNum (Fixnum (Z.of_nat (length xs)))) s' /\
@@ -4200,7 +4176,7 @@ Qed.
 
 (* (cadr o) on the hand model *)
 Theorem prelude_cadr_spec fuel s o a d a2 d2 :
-  sp s < len (stack s) ->
+  sp s < scap s ->
   heap_deref (hp s) o = Ok (VPair a d) -> heap_get (hp s) d = Ok (VPair a2 d2) ->
   exists s', p_cadr fuel [o] s = ROk (VPtr a2) s' /\ hp s' = hp s /\ st s' = st s.
 Proof.
